@@ -37,6 +37,7 @@ FAULTS = (["undefined:" + s for s in UNDEF_SLOTS]
           + ["mode:float-literal", "mode:complex-literal", "mode:float-variable", "mode:str-variable", "mode:computed-float", "mode:float-array-element", "mode:in-loop"]
           + ["complex:int-scalar-literal", "complex:float-scalar-literal", "complex:float-scalar-computed", "complex:int-scalar-computed",
              "complex:float-array-literal", "complex:float-array-computed", "complex:int-array-computed", "complex:via-variable"]
+          + ["complex:float-scalar-zero-imag", "complex:int-array-zero-imag"]
           + ["looptype:str-in-int", "looptype:float-in-int", "looptype:str-in-float", "looptype:int-in-str"]
           + ["include:arity", "include:keywords"])
 REQUIRED_TAGS = ["fault:" + f for f in FAULTS]
@@ -152,6 +153,11 @@ def inject(rng, g, fault):
             new = "float array %s =\n    1, (1+2j)*2" % nm
         elif slot == "int-array-computed":
             new = "int array %s =\n    1, 2\n    3, 2j*2" % nm
+        elif slot == "float-scalar-zero-imag":
+            # complex-typed values whose imaginary part happens to be zero
+            new = "%s %s = %s" % (rng.choice(["float", "int"]), nm, rng.choice(["1j*1j", "(2+1j)*(2-1j)", "(1+2j) - 2j", "1j**2", "2j/1j", "(3+0j)*2"]))
+        elif slot == "int-array-zero-imag":
+            new = "%s array %s =\n    1, %s" % (rng.choice(["float", "int"]), nm, rng.choice(["1j*1j", "(2+1j)*(2-1j)", "1j**2", "(1+2j) - 2j"]))
         elif slot == "via-variable":
             new = "complex %s = 1+1j\n%s %s = %s*1" % (nm, rng.choice(["int", "float"]), G.ident(), nm)
     elif cls == "looptype":
